@@ -53,6 +53,10 @@ type Attempt struct {
 	Kind    string `json:"k"`           // ok | err | stall | late | reset | close | okclose
 	DelayMs int    `json:"d,omitempty"` // delay before acting
 	Status  int    `json:"s,omitempty"` // err: HTTP status / bolt status
+	// NearUs (kind ok): additional delay in microseconds that puts the answer within a millisecond of the timer that
+	// guards the attempt (per-try timeout, or the global timeout for a first attempt): the answer's end of the stream
+	// and the timer's reset of it happen in two goroutines at the same moment
+	NearUs int `json:"nu,omitempty"`
 }
 
 // ReqPlan is one request (HTTP/1, bolt) or one proxied TCP connection.
@@ -323,7 +327,7 @@ func (r *rig) script(req *mesh.Req) mesh.Action {
 		}
 	}
 	r.count(a.Kind)
-	act := mesh.Action{Kind: "reply", Delay: time.Duration(a.DelayMs) * time.Millisecond, Status: 200,
+	act := mesh.Action{Kind: "reply", Delay: time.Duration(a.DelayMs)*time.Millisecond + time.Duration(a.NearUs)*time.Microsecond, Status: 200,
 		Header: [][2]string{{mesh.TokenHeader, req.Token}}, Body: []byte("re:" + req.Token)}
 	bolt := !h1Down(r.su.Proto)
 	if bolt {
